@@ -264,9 +264,20 @@ func calleeShort(c *ssa.CallCommon) string {
 
 func (f *Frame) numberCalls() {
 	f.callOrd = map[ssa.Instruction]string{}
-	counts := map[string]int{}
+	type site struct {
+		ins ssa.Instruction
+		cc  *ssa.CallCommon
+		pos token.Pos
+		seq int
+	}
+	var sites []site
+	seq := 0
 	for _, b := range f.fn.Blocks {
+		last := token.NoPos
 		for _, ins := range b.Instrs {
+			if p := ins.Pos(); p.IsValid() {
+				last = p
+			}
 			var cc *ssa.CallCommon
 			switch c := ins.(type) {
 			case *ssa.Call:
@@ -279,10 +290,26 @@ func (f *Frame) numberCalls() {
 			if cc == nil {
 				continue
 			}
-			n := calleeShort(cc)
-			counts[n]++
-			f.callOrd[ins] = fmt.Sprintf("call %s#%d", n, counts[n])
+			p := ins.Pos()
+			if !p.IsValid() {
+				p = last
+			}
+			seq++
+			sites = append(sites, site{ins, cc, p, seq})
 		}
+	}
+	// anchors are numbered in source order (not block order), so that "call X#2" is the second X in the text
+	sort.SliceStable(sites, func(i, j int) bool {
+		if sites[i].pos != sites[j].pos {
+			return sites[i].pos < sites[j].pos
+		}
+		return sites[i].seq < sites[j].seq
+	})
+	counts := map[string]int{}
+	for _, s := range sites {
+		n := calleeShort(s.cc)
+		counts[n]++
+		f.callOrd[s.ins] = fmt.Sprintf("call %s#%d", n, counts[n])
 	}
 }
 
